@@ -11,6 +11,13 @@ _SCHED_RULE = (
 META = {
     "C05": {
         "level": "exploration",
+        "technique": "deterministic simulation: seeded pool schedules/transports + call histories, row-at-a-time reference oracle",
+        "level_text": "Seeded exploration of execution paths x schedules x call histories on the real code: every marginal_ln_likelihood path must return the "
+        "row-at-a-time fresh-helper reference L* in input order (bitwise where both sides share a conversion), equal seeds must accept the same rows on every path, "
+        "and a long-lived helper driven through random likelihood/posterior/pickle interleavings must keep returning L*. Sampling, not proof: a clean batch is evidence.",
+        "level_note": "Trusts: numpy/h5py/PyTables/astropy/dill; SimPool's model of multiprocess pools (by-value chunks, any completion order, results in task order); "
+        "L* is computed by the system's own kernel so kernel arithmetic is out of scope (C01). Worker isolation is data-level only (one interpreter).",
+        "design_ref": "DESIGN.md section 4 / C05",
         "rule": _SCHED_RULE + "C05 compares the same library rows through 5-9 execution paths per run (in-memory / cache / file, n_batches below/equal/above N, "
         "SerialPool / SimPool) with random call histories in between, against the row-at-a-time fresh-helper reference L*.",
         "assumptions": [
